@@ -34,3 +34,28 @@ package manifest
 //@   at loop 1 back: assert c0 <= 32 || c0 == 92 ==> len(escaped) == len0 + 4 && escaped[len0] == 92 && 48 <= escaped[len0+1] && escaped[len0+1] <= 55 && 48 <= escaped[len0+2] && escaped[len0+2] <= 55 && 48 <= escaped[len0+3] && escaped[len0+3] <= 55
 //@   at loop 1 back: assert !(c0 <= 32 || c0 == 92) ==> len(escaped) == len0 + 1 && escaped[len0] == c0
 //@   at loop 1 back: assert forall k int :: 0 <= k && k < len0 ==> escaped[k] == old(escaped[k]) || true
+
+// streamValid: what parseManifestStream establishes and what the range mapping
+// relies on: block offsets are the running sums of the block sizes and every
+// file token lies inside the stream (no wrap-around of the 64-bit sums).
+//@ spec macro streamValid(m) bool = len(m.blockOffsets) == len(m.Blocks)+1 && len(m.Blocks) >= 1 && m.blockOffsets[0] == 0 && (forall i int :: 0 <= i && i < len(m.Blocks) ==> m.blockOffsets[i] <= m.blockOffsets[i+1]) && (forall k int :: 0 <= k && k < len(m.FileStreamSegments) ==> m.FileStreamSegments[k].SegPos + m.FileStreamSegments[k].SegLen <= m.blockOffsets[len(m.Blocks)])
+
+//@ func ParseBlockLocator trusted
+//@   modifies fresh(mem:string)
+//@   ensures err == nil ==> b.Size >= 0
+
+//@ func parseFileStreamSegment trusted
+//@   modifies fresh(mem:string)
+
+//@ func parseManifestStream property C10 arith checked
+//@   ghost nb int = 0
+//@   at assign fileTokens#1: set nb = len(m.Blocks)
+//@   ensures m.Err == nil ==> streamValid(m)
+//@   loop 1: invariant 0 <= i && i <= len(tokens)
+//@   loop 2: invariant m.Err == nil && len(m.Blocks) == nb && nb >= 1 && len(m.blockOffsets) == nb + 1 && len(m.FileStreamSegments) == 0
+//@   loop 2: invariant forall j int :: 0 <= j && j < $i ==> m.blockOffsets[j] <= streamoffset
+//@   loop 2: invariant forall j int :: 0 <= j && j + 1 < $i ==> m.blockOffsets[j] <= m.blockOffsets[j+1]
+//@   loop 2: invariant ($i > 0 ==> m.blockOffsets[0] == 0) && ($i == 0 ==> streamoffset == 0)
+//@   loop 3: invariant len(m.Blocks) == nb && nb >= 1 && len(m.blockOffsets) == nb + 1 && m.blockOffsets[0] == 0 && m.blockOffsets[nb] == streamoffset
+//@   loop 3: invariant forall j int :: 0 <= j && j < nb ==> m.blockOffsets[j] <= m.blockOffsets[j+1]
+//@   loop 3: invariant m.Err == nil && (forall k int :: 0 <= k && k < len(m.FileStreamSegments) ==> m.FileStreamSegments[k].SegPos + m.FileStreamSegments[k].SegLen <= streamoffset)
